@@ -16,15 +16,15 @@ deriving DecidableEq, Repr
 /-- The three lockable fields of a user. -/
 structure LState where
   attempts : Int := 0
-  last     : Time := zeroTime
-  locked   : Time := zeroTime
+  last     : Int := zeroTime
+  locked   : Int := zeroTime
 deriving DecidableEq, Repr
 
 /-- `IsLocked`: `lu.GetLocked().After(now)`. -/
-def isLocked (now : Time) (s : LState) : Bool := decide (s.locked > now)
+def isLocked (now : Int) (s : LState) : Bool := decide (s.locked > now)
 
 /-- `updateLockedState` (state part). -/
-def update (c : LCfg) (now : Time) (wasCorrect : Bool) (s : LState) : LState :=
+def update (c : LCfg) (now : Int) (wasCorrect : Bool) (s : LState) : LState :=
   if wasCorrect then { s with last := now }
   else
     let attempts := if now - s.last > c.window then 1 else s.attempts + 1
@@ -33,13 +33,13 @@ def update (c : LCfg) (now : Time) (wasCorrect : Bool) (s : LState) : LState :=
       locked := if attempts ≥ c.after then now + c.duration else s.locked }
 
 /-- `AfterAuthSuccess`. -/
-def success (now : Time) (s : LState) : LState := { s with attempts := 0, last := now }
+def success (now : Int) (s : LState) : LState := { s with attempts := 0, last := now }
 
 /-- Manual `Lock`. -/
-def lock (c : LCfg) (now : Time) (s : LState) : LState := { s with locked := now + c.duration }
+def lock (c : LCfg) (now : Int) (s : LState) : LState := { s with locked := now + c.duration }
 
 /-- Manual `Unlock`. -/
-def unlock (c : LCfg) (now : Time) (_s : LState) : LState :=
+def unlock (c : LCfg) (now : Int) (_s : LState) : LState :=
   { attempts := 0, last := now - c.window * 2, locked := now - c.duration }
 
 end AuthbossModel.Lock
